@@ -659,7 +659,13 @@ pub fn arcswap<T: Shape>(out: &mut Vec<Value>) {
 /// size computations that overflow isize must be refused with a panic before anything is allocated
 pub fn overflow<H: Shape + Tagged, T: Shape>(out: &mut Vec<Value>) {
     let sz = size_of::<T>().max(1);
-    let lens = [usize::MAX, usize::MAX / 2 + 1, (isize::MAX as usize) / sz + 1, (isize::MAX as usize - 4) / sz + 1];
+    // the last two make `size * len` wrap around to a small number
+    let mut lens = vec![usize::MAX, usize::MAX / 2 + 1, (isize::MAX as usize) / sz + 1, (isize::MAX as usize - 4) / sz + 1];
+    if sz > 1 {
+        // `size * len` wraps around to a small number
+        lens.push(usize::MAX / sz + 2);
+        lens.push(usize::MAX / sz + 9);
+    }
     for len in lens {
         for ctor in ["from_header_and_uninit_slice", "new_uninit_slice", "exact_size_iter_lying_len"] {
             ev::LOG.clear();
